@@ -159,6 +159,32 @@ class Flattener:
     # -- which callee --------------------------------------------------------------------------------------------
     def helper_of(self, call, local_defs):
         f = call.func
+        if isinstance(f, ast.Attribute) and isinstance(f.value, ast.Name) and f.value.id in ("cls", "self") and self.fi.cls is not None \
+                and f.attr.startswith("_") and not f.attr.startswith("__") and f.attr not in KNOWN_ATOMS:
+            # a private method of the same class (resolved along the MRO of the defining class)
+            if any(isinstance(a, ast.Starred) for a in call.args) or any(k.arg is None for k in call.keywords):
+                return None
+            try:
+                g = self.ix.lookup_method(self.fi.cls, f.attr)
+            except Exception:
+                g = None
+            if g is None or g.qualname in self.stack or g.qualname == self.fi.qualname:
+                return None
+            node = g.raw_node
+            decos = [ast.unparse(d) for d in node.decorator_list]
+            if any(d not in ("classmethod", "staticmethod") for d in decos):
+                return None
+            if not self._ok_def(node, allow_decorators=True):
+                return None
+            if "staticmethod" in decos:
+                return node
+            # drop the implicit first parameter; the caller's cls / self is the callee's
+            if not node.args.args or node.args.args[0].arg != f.value.id:
+                return None
+            node2 = copy.copy(node)
+            node2.args = copy.copy(node.args)
+            node2.args.args = list(node.args.args[1:])
+            return node2
         if not isinstance(f, ast.Name):
             return None
         if any(isinstance(a, ast.Starred) for a in call.args) or any(k.arg is None for k in call.keywords):
@@ -182,9 +208,9 @@ class Flattener:
         return node if self._ok_def(node) else None
 
     @staticmethod
-    def _ok_def(node):
+    def _ok_def(node, allow_decorators=False):
         a = node.args
-        if a.vararg or a.kwarg or node.decorator_list or isinstance(node, ast.AsyncFunctionDef):
+        if a.vararg or a.kwarg or (node.decorator_list and not allow_decorators) or isinstance(node, ast.AsyncFunctionDef):
             return False
         body = _strip_doc(node.body)
         if len(body) > MAX_HELPER_STMTS or not body:
@@ -414,6 +440,10 @@ def _flatten_helpers(ix, fi, depth=0, stack=()):
             if nm in local_defs or (nm.startswith("_") and not nm.startswith("__") and nm not in KNOWN_ATOMS):
                 cand = True
                 break
+        if isinstance(n, ast.Call) and isinstance(n.func, ast.Attribute) and isinstance(n.func.value, ast.Name) \
+                and n.func.value.id in ("cls", "self") and n.func.attr.startswith("_") and not n.func.attr.startswith("__"):
+            cand = True
+            break
     if not cand:
         return raw
     node = copy.deepcopy(raw)
